@@ -79,6 +79,9 @@ def run(prop, units, scratch, seed, out):
         if not mut.state["applied"]:
             return (m, None, "pattern not found in any fn named %s (update vx/mutants)" % m["fn"])
         failed = set(r["failed"]) | {"(unattributed in %s)" % u.get("function") for u in r["unattributed"]}
+        if not failed and any(k.split("::")[-1] == m["fn"] for k in r.get("stubbed", {})):
+            # the mutated text did not pass the front end and the fn was stubbed: nothing was judged
+            return (m, None, "the mutated fn %s does not pass the front end (stubbed): rewrite the mutant" % m["fn"])
         return (m, failed, None)
 
     with cf.ThreadPoolExecutor(max_workers=8) as ex:
